@@ -433,7 +433,9 @@ Inductive instr :=
 | IApply (c : cmd)
 | IApplyList (cs : list cmd)
 | IRunner (t : ent) (su : setup) (cl : cleanup)
+| IRun (t : ent) (su : setup) (cl : cleanup) (idx : N)
 | ICallback (t : ent) (cl : cleanup)
+| IBody (t : ent) (runno captured : N) (cl : cleanup)
 | IExclSteps (s run idx : N) (pending : list cmd) (l : list action)
 | IDirectSteps (op idx : N) (l : list action)
 | IBatches (op idx : N) (bs : list (list action))
@@ -447,6 +449,64 @@ Inductive instr :=
 Definition xsys_of (s : ent) : option (N * ent) :=
   match find (fun x => N.eqb (fst (snd x)) s) (p_xr P) with Some (x, (s, _)) => Some (x, s) | None => None end.
 
+(* ----- atomic steps of the runner and of the callback, named so that invariants are stated once per step ----- *)
+
+(* Command::apply of the five commands that enter the runner: draw a ticket, park the metadata (commands.rs:150-293) *)
+Definition prepare_cmd (c : cmd) (w : world) : option (ent * setup * cleanup * world) :=
+  match c with
+  | CSysCmd t => Some (t, SuDefault, ClDefault, w)
+  | CEventCmd t d =>
+      let (k, w) := fresh_ticket w in Some (t, SuSysEvent k, ClSysEvent, w <| tr_se ::= trk_prepare k t d |>)
+  | CReact (RcResource t) => Some (t, SuDefault, ClDefault, w)
+  | CReact (RcEntity src rt t) =>
+      let (k, w) := fresh_ticket w in Some (t, SuEntity k, ClEntity, w <| tr_er ::= trk_prepare k t (t, src, rt) |>)
+  | CReact (RcDespawn src t h) =>
+      let (k, w) := fresh_ticket w in Some (t, SuDespawn k, ClDespawn, w <| tr_de ::= trk_prepare k t (src, Some h) |>)
+  | CReact (RcEntityEvent tgt d t) =>
+      let (k, w) := fresh_ticket w in
+      Some (t, SuEntityEvent k, ClEntityEvent,
+            w <| tr_er ::= trk_prepare k t (t, tgt, REvent UNIT_TY) |> <| tr_ev ::= trk_prepare k t d |>)
+  | CReact (RcBroadcast d t) =>
+      let (k, w) := fresh_ticket w in Some (t, SuBroadcast k, ClBroadcast, w <| tr_ev ::= trk_prepare k t d |>)
+  | _ => None
+  end.
+
+Inductive lookup_res := LDead | LNoStorage | LTaken | LPresent.
+Definition lookup_storage (t : ent) (w : world) : lookup_res :=
+  if negb (is_alive t w) then LDead else
+  match alookup t (storage w) with None => LNoStorage | Some false => LTaken | Some true => LPresent end.
+
+Definition gc_step (e : ent) (r : list ent) (w : world) : world := despawn e (w <| gc_chan := r |>).
+Definition rn_postpone (t : ent) (su : setup) (cl : cleanup) (w : world) : world :=
+  emit (EvExit t (setup_ticket su)) (emit (EvPost t (setup_ticket su)) (w <| buffer ::= fun b => b ++ [mkBuf t su cl] |>)).
+Definition rn_take (t : ent) (su : setup) (w : world) : world :=
+  emit (EvStart t (setup_ticket su)) (w <| storage := aset t false (storage w) |> <| counter ::= N.succ |>).
+Definition rn_reinsert (t : ent) (k : N) (w : world) : world :=
+  emit (EvEnd t k true) (w <| storage := aset t true (storage w) |>).
+Definition rn_dropped (t : ent) (k : N) (w : world) : world := emit (EvEnd t k false) (drop_callback t w).
+Definition rn_despawn_missing (t : ent) (k : N) (w : world) : world := emit (EvEnd t k false) (despawn t (drop_callback t w)).
+Definition rn_abort_cleanup (su : setup) (cl : cleanup) (w : world) : world :=
+  emit (EvCleanup (setup_ticket su)) (run_cleanup cl w).
+Definition rn_discard_pop (b : buffered) (rest : list buffered) (w : world) : world :=
+  emit (EvDiscard (b_sys b) (setup_ticket (b_setup b))) (w <| buffer := rest |>).
+
+Definition cb_bump (t : ent) (cb : cbrec) (once_taken : bool) (w : world) : world :=
+  w <| cbs := aset t (mkCb (cb_once cb) (cb_runno cb + 1) (cb_captured cb + 1) once_taken true) (cbs w) |>.
+(* the taken inner closure of a `once` reactor (and its canary) is dropped when the wrapper returns *)
+Definition once_finish (t : ent) (tk : token) (w : world) : world :=
+  match alookup t (cbs w) with
+  | Some cb' => emit (EvDropSys t) (w <| cbs := aset t (mkCb (Some tk) (cb_runno cb') (cb_captured cb') true false) (cbs w) |>)
+  | None => w end.
+(* first statements of every harness body: sample all readers, log the run; an X body bumps its entity's local data *)
+Definition body_begin (sd : sysdecl) (t : ent) (runno captured : N) (w : world) : world :=
+  let (sm, w) := sample_readers sd (xsys_of t) w in
+  let w := emit (EvRun t runno captured sm) w in
+  match sm_l sm, xsys_of t with
+  | Some (src, Some v), Some (x, _) => w <| xlocals := aset2 x src (v + 1) (xlocals w) |>
+  | _, _ => w end.
+Definition plain_cleanup (cl : cleanup) (w : world) : world := emit (EvCleanup 0) (run_cleanup cl w).
+Definition top_end (i : N) (w : world) : world := emit (EvTop i (take_snapshot all_ids w)) w.
+
 Fixpoint exec (fuel : nat) (i : instr) (w : world) {struct fuel} : result world :=
   match fuel with
   | O => OutOfFuel
@@ -455,37 +515,22 @@ Fixpoint exec (fuel : nat) (i : instr) (w : world) {struct fuel} : result world 
     | IApplyList [] => Ok w
     | IApplyList (c :: cs) => do w <- exec f (IApply c) w; exec f (IApplyList cs) w
     | IApply c =>
-        match c with
-        | CSysCmd t => exec f (IRunner t SuDefault ClDefault) w
-        | CEventCmd t d =>
-            (* EventCommand::apply (commands.rs:168-181) *)
-            let (k, w) := fresh_ticket w in
-            exec f (IRunner t (SuSysEvent k) ClSysEvent) (w <| tr_se ::= trk_prepare k t d |>)
-        | CReact (RcResource t) => exec f (IRunner t SuDefault ClDefault) w
-        | CReact (RcEntity src rt t) =>
-            let (k, w) := fresh_ticket w in
-            exec f (IRunner t (SuEntity k) ClEntity) (w <| tr_er ::= trk_prepare k t (t, src, rt) |>)
-        | CReact (RcDespawn src t h) =>
-            let (k, w) := fresh_ticket w in
-            exec f (IRunner t (SuDespawn k) ClDespawn) (w <| tr_de ::= trk_prepare k t (src, Some h) |>)
-        | CReact (RcEntityEvent tgt d t) =>
-            let (k, w) := fresh_ticket w in
-            let w := w <| tr_er ::= trk_prepare k t (t, tgt, REvent UNIT_TY) |> <| tr_ev ::= trk_prepare k t d |> in
-            exec f (IRunner t (SuEntityEvent k) ClEntityEvent) w
-        | CReact (RcBroadcast d t) =>
-            let (k, w) := fresh_ticket w in
-            exec f (IRunner t (SuBroadcast k) ClBroadcast) (w <| tr_ev ::= trk_prepare k t d |>)
-        | CGC => exec f IGC w
-        | CSpawnSys s =>
-            (* Commands::spawn = spawn_empty + insert: Bevy panics (B0003) if the reserved entity was despawned meanwhile *)
-            if is_alive s w then let (w, cs) := apply_prim c w in exec f (IApplyList cs) w else Stuck 4
-        | c => let (w, cs) := apply_prim c w in exec f (IApplyList cs) w
+        match prepare_cmd c w with
+        | Some (t, su, cl, w) => exec f (IRunner t su cl) w
+        | None =>
+            match c with
+            | CGC => exec f IGC w
+            | CSpawnSys s =>
+                (* Commands::spawn = spawn_empty + insert: Bevy panics (B0003) if the reserved entity was despawned meanwhile *)
+                if is_alive s w then let (w, cs) := apply_prim c w in exec f (IApplyList cs) w else Stuck 4
+            | c => let (w, cs) := apply_prim c w in exec f (IApplyList cs) w
+            end
         end
     | IGC =>
         (* garbage_collect_entities (auto_despawn.rs:31-37) *)
         match gc_chan w with
         | [] => Ok w
-        | e :: r => exec f IGC (despawn e (w <| gc_chan := r |>))
+        | e :: r => exec f IGC (gc_step e r w)
         end
     | IPoll =>
         (* schedule_removal_and_despawn_reactors (utils.rs:25-32) *)
@@ -494,55 +539,39 @@ Fixpoint exec (fuel : nat) (i : instr) (w : world) {struct fuel} : result world 
         (* cleanup_on_abort (syscommand_runner.rs:13-20) *)
         match run_setup su t w with
         | None => Stuck 1
-        | Some w =>
-            let w := emit (EvCleanup (setup_ticket su)) (run_cleanup cl w) in
-            do w <- exec f IGC w; exec f IPoll w
+        | Some w => do w <- exec f IGC (rn_abort_cleanup su cl w); exec f IPoll w
         end
     | IRunner t su cl =>
-        (* syscommand_runner (syscommand_runner.rs:73-186) *)
+        (* syscommand_runner (syscommand_runner.rs:73-117): prologue and callback extraction *)
         let k := setup_ticket su in
         let idx := counter w in
-        let w := emit (EvEnter t k idx) w in
-        do w <- exec f IGC w;
+        do w <- exec f IGC (emit (EvEnter t k idx) w);
         do w <- exec f IPoll w;
-        if negb (is_alive t w) then
-          do w <- exec f (IAbort t su cl) (emit (EvAbort t k 0) w); Ok (emit (EvExit t k) w)
-        else match alookup t (storage w) with
-        | None => do w <- exec f (IAbort t su cl) (emit (EvAbort t k 1) w); Ok (emit (EvExit t k) w)
-        | Some false =>
-            if N.eqb idx 0 then
-              do w <- exec f (IAbort t su cl) (emit (EvAbort t k 2) w); Ok (emit (EvExit t k) w)
-            else
-              Ok (emit (EvExit t k) (emit (EvPost t k) (w <| buffer ::= fun b => b ++ [mkBuf t su cl] |>)))
-        | Some true =>
-            let w := w <| storage := aset t false (storage w) |> <| counter ::= N.succ |> in
-            let w := emit (EvStart t k) w in
-            match run_setup su t w with
-            | None => Stuck 2
-            | Some w =>
-                do w <- exec f (ICallback t cl) w;
-                do w <- exec f IGC w;
-                (* reinsert the callback if its target hasn't been despawned *)
-                do w <-
-                  (if is_alive t w then
-                     match alookup t (storage w) with
-                     | Some _ => Ok (emit (EvEnd t k true) (w <| storage := aset t true (storage w) |>))
-                     | None =>
-                         let w := drop_callback t w in
-                         let w := emit (EvEnd t k false) (despawn t w) in
-                         exec f IGC w
-                     end
-                   else
-                     let w := drop_callback t w in
-                     exec f IGC (emit (EvEnd t k false) w));
-                do w <- exec f IPoll w;
-                let q := buffer w in
-                do w <- exec f (IReplay t q []) (w <| buffer := [] |>);
-                do w <- (if N.eqb idx 0 then
-                           do w <- exec f IDiscard w; Ok (w <| counter := 0 |>)
-                         else Ok w);
-                Ok (emit (EvExit t k) w)
-            end
+        match lookup_storage t w with
+        | LDead => do w <- exec f (IAbort t su cl) (emit (EvAbort t k 0) w); Ok (emit (EvExit t k) w)
+        | LNoStorage => do w <- exec f (IAbort t su cl) (emit (EvAbort t k 1) w); Ok (emit (EvExit t k) w)
+        | LTaken =>
+            if N.eqb idx 0 then do w <- exec f (IAbort t su cl) (emit (EvAbort t k 2) w); Ok (emit (EvExit t k) w)
+            else Ok (rn_postpone t su cl w)
+        | LPresent => exec f (IRun t su cl idx) w
+        end
+    | IRun t su cl idx =>
+        (* syscommand_runner (syscommand_runner.rs:119-186): run, reinsert, replay, root discard *)
+        let k := setup_ticket su in
+        match run_setup su t (rn_take t su w) with
+        | None => Stuck 2
+        | Some w =>
+            do w <- exec f (ICallback t cl) w;
+            do w <- exec f IGC w;
+            do w <- match lookup_storage t w with
+                    | LDead => exec f IGC (rn_dropped t k w)
+                    | LNoStorage => exec f IGC (rn_despawn_missing t k w)
+                    | _ => Ok (rn_reinsert t k w)
+                    end;
+            do w <- exec f IPoll w;
+            do w <- exec f (IReplay t (buffer w) []) (w <| buffer := [] |>);
+            do w <- (if N.eqb idx 0 then do w <- exec f IDiscard w; Ok (w <| counter := 0 |>) else Ok w);
+            Ok (emit (EvExit t k) w)
         end
     | IReplay t [] kept => Ok (w <| buffer ::= fun b => b ++ kept |>)
     | IReplay t (b :: pending) kept =>
@@ -553,46 +582,36 @@ Fixpoint exec (fuel : nat) (i : instr) (w : world) {struct fuel} : result world 
         match buffer w with
         | [] => Ok w
         | b :: rest =>
-            let w := emit (EvDiscard (b_sys b) (setup_ticket (b_setup b))) (w <| buffer := rest |>) in
-            do w <- exec f (IAbort (b_sys b) (b_setup b) (b_cleanup b)) w; exec f IDiscard w
+            do w <- exec f (IAbort (b_sys b) (b_setup b) (b_cleanup b)) (rn_discard_pop b rest w); exec f IDiscard w
         end
     | ICallback t cl =>
-        (* SystemCommandCallback::run: the harness body, or the `once` wrapper around it *)
-        match alookup t (cbs w), find_sys t with
-        | Some cb, Some sd =>
-            let go (runno : N) (w : world) (after : world -> result world) : result world :=
-              let (sm, w) := sample_readers sd (xsys_of t) w in
-              let w := emit (EvRun t runno (cb_captured cb) sm) w in
-              (* EntityLocal::get_mut: the X body increments its entity's local data *)
-              let w := match sm_l sm, xsys_of t with
-                       | Some (src, Some v), Some (x, _) => w <| xlocals := aset2 x src (v + 1) (xlocals w) |>
-                       | _, _ => w end in
-              match sd_kind sd with
-              | Plain =>
-                  let (w, cs) := acts (OSys t runno) 0 (script_of t runno) w in
-                  let w := emit (EvCleanup 0) (run_cleanup cl w) in
-                  do w <- exec f (IApplyList cs) w; after w
-              | Excl =>
-                  do w <- exec f (IExclSteps t runno 0 [CCleanup cl] (script_of t runno)) w; after w
-              end in
+        (* SystemCommandCallback::run: the harness body, or the `once` wrapper around it (react_commands.rs:331-345) *)
+        match alookup t (cbs w) with
+        | Some cb =>
             match cb_once cb with
-            | None =>
-                let w := w <| cbs := aset t (mkCb None (cb_runno cb + 1) (cb_captured cb + 1) false true) (cbs w) |> in
-                go (cb_runno cb) w (fun w => Ok w)
+            | None => exec f (IBody t (cb_runno cb) (cb_captured cb) cl) (cb_bump t cb false w)
             | Some tk =>
                 if cb_taken cb then Ok w
                 else
-                  let w := w <| cbs := aset t (mkCb (Some tk) (cb_runno cb + 1) (cb_captured cb + 1) true true) (cbs w) |> in
-                  go (cb_runno cb) w (fun w =>
-                    (* despawn own entity, then world.react(|rc| rc.revoke(token)) *)
-                    let w := despawn t w in
-                    do w <- exec f (IApplyList [CRevoke tk]) w;
-                    (* the taken inner closure (and its canary) is dropped when the wrapper returns *)
-                    Ok (match alookup t (cbs w) with
-                        | Some cb' => emit (EvDropSys t) (w <| cbs := aset t (mkCb (Some tk) (cb_runno cb') (cb_captured cb') true false) (cbs w) |>)
-                        | None => w end))
+                  do w <- exec f (IBody t (cb_runno cb) (cb_captured cb) cl) (cb_bump t cb true w);
+                  (* despawn own entity, then world.react(|rc| rc.revoke(token)) *)
+                  do w <- exec f (IApplyList [CRevoke tk]) (despawn t w);
+                  Ok (once_finish t tk w)
             end
-        | _, _ => Stuck 3
+        | None => Stuck 3
+        end
+    | IBody t runno captured cl =>
+        (* run_initialized_system (callbacks.rs:207-239) around the harness body *)
+        match find_sys t with
+        | None => Stuck 3
+        | Some sd =>
+            let w := body_begin sd t runno captured w in
+            match sd_kind sd with
+            | Plain =>
+                let (w, cs) := acts (OSys t runno) 0 (script_of t runno) w in
+                exec f (IApplyList cs) (plain_cleanup cl w)
+            | Excl => exec f (IExclSteps t runno 0 [CCleanup cl] (script_of t runno)) w
+            end
         end
     | IExclSteps s run idx pending [] => exec f (IApplyList pending) w
     | IExclSteps s run idx pending (a :: r) =>
@@ -620,7 +639,7 @@ Fixpoint exec (fuel : nat) (i : instr) (w : world) {struct fuel} : result world 
               do w <- exec f IPoll w;
               Ok (clear_trackers w)
           end;
-        Ok (emit (EvTop i (take_snapshot all_ids w)) w)
+        Ok (top_end i w)
     end
   end.
 
